@@ -168,6 +168,10 @@ def run(ctx):
             return f"{unit}={rnd.choice(['chapter=2', 'a=b=c', '=', '==1-2', 'x=1-2', '1-2='])}", unit, 'skip'
         if k < 0.4:
             a, b = num(), num()
+            r = rnd.random()
+            if r < 0.25: b = a                                   # boundary: a one-byte range (first-pos == last-pos) is valid
+            elif r < 0.4: b = str(int(a) + rnd.choice([-1, 1]))   # just below (invalid unless negative) / just above
+            if int(b) < 0: b = '0'
             exp = (int(a), int(b)) if int(a) <= int(b) else 'bad'
             return f'{unit}={a}-{b}', unit, exp
         if k < 0.7:
